@@ -42,6 +42,8 @@ package best
 //@   requires n == 0 && (forall p int, x float64 :: !got[p][x])
 //@   at recv respCh: ghost n = n + 1
 //@   at recv respCh: ghost got[msg.proposal][msg.score] = true
+//@   loop 1
+//@     invariant opts != nil
 //@   loop 2
 //@     invariant n >= 0 && (bestProposal == nil <==> n == 0)
 //@     invariant bestProposal != nil ==> validProposal(bestProposal) && got[bestProposal][bestScore]
